@@ -19,6 +19,9 @@ RULE_TEXT = "one obligation per chain link, accept-table row, predicate pair, cr
 
 
 def rules(ctx, report, facts, config, pfx="C10"):
+    # a provided data type that declares more than it borrows forces stages nothing needs: declared = borrowed (C06), imported
+    from .. import datarules as _D
+    report.guard(pfx + ".DECL", _D.all_impls, ctx, report, facts, config, pfx + ".DECL", only_kinds=("leaf", "tuple"))
     report.guard(pfx + ".EARLIEST", P.accept, ctx, report, pfx + ".EARLIEST", facts, config, ("chain",))
     report.guard(pfx + ".ACCEPT", P.accept, ctx, report, pfx + ".ACCEPT", facts, config, ("accept",))
     report.guard(pfx + ".EXACT", P.matrix, ctx, report, pfx + ".EXACT", facts, config, ("exact",))
